@@ -146,9 +146,13 @@ PROPS = {
         "level": "proof",
         "explanation": "Per character the claim is complete: for EVERY Unicode scalar value (symbolic char) each of the four writers, run on "
                        "the real code through a fixed-capacity fmt::Write sink, produces a body that an RFC 8259 string decoder maps back to "
-                       "that character, and the body starts with a backslash exactly when the convention requires an escape. The scanner masks "
-                       "are exact per lane for all chunks. Concatenation over longer strings and the scanner's chunk loops are bounded "
-                       "(2-character strings; 21- and 83-byte buffers with every start offset).",
+                       "that character, and the body starts with a backslash exactly when the convention requires an escape (Kani, 12 "
+                       "harnesses: 4 writers x {ASCII, BMP, supplementary}). The scanner sentence is proved without bound by Verus on the "
+                       "text the define_escape_scanner! macro generates for json_escape: the AVX2 and SSE2 lane masks are exact (lane == "
+                       "0xFF iff quote, backslash or below 0x20) and scalar / avx2 / sse2 / dispatch / x86 / find / find_json_escape return "
+                       "exactly the index of the first such byte at or after start (the length if none) for buffers of every length and "
+                       "every start, every vector load in bounds. Concatenation over longer strings (the writers' loops over a str) is "
+                       "bounded: 2-character strings (thorough tier).",
         "trusted_base": COMMON_TRUST + [MODELS + "_mm256_subs_epu8, _mm_subs_epu8"],
         "assumptions": ["strings longer than 2 characters / buffers longer than 83 bytes: by the stateless per-character structure only (bounded evidence)",
                         "NEON scanner unverified; avx2_enabled() (cpuid) not executed, dispatch(use_avx2) checked for both values"],
